@@ -6,13 +6,16 @@ import RtenVerif.Lemmas.ShapeInferRange
 -/
 namespace RtenVerif.ShapeInfer
 
-/-- The arithmetic heart: `min(c + 1, max(c, (I - 1) / s + 1))` is `c` when `c * s ≥ I` (the executor
-drops the last position) and `c + 1` otherwise, for every `c`. -/
-theorem pool_clamp (c I s : Nat) (hs : 0 < s) (hI : 1 ≤ I) :
-    Nat.min (c + 1) (Nat.max c ((I - 1) / s + 1)) = if c * s ≥ I then c else c + 1 := by
-  have h1 : c * s ≥ I → (I - 1) / s < c := fun h => (Nat.div_lt_iff_lt_mul hs).mpr (by omega)
-  have h2 : ¬ c * s ≥ I → c ≤ (I - 1) / s := fun h => (Nat.le_div_iff_mul_le hs).mpr (by omega)
-  generalize (I - 1) / s = q at *
+/-- The arithmetic heart: `min(c + 1, max(c, ⌈I / s⌉))` is `c` when `c * s ≥ I` (the executor
+drops the last position) and `c + 1` otherwise, for every `c` and every `I ≥ 0`. -/
+theorem pool_clamp (c I s : Nat) (hs : 0 < s) :
+    Nat.min (c + 1) (Nat.max c ((I + s - 1) / s)) = if c * s ≥ I then c else c + 1 := by
+  have h1 : c * s ≥ I → (I + s - 1) / s ≤ c := fun h => by
+    have : (I + s - 1) / s < c + 1 := (Nat.div_lt_iff_lt_mul hs).mpr (by rw [Nat.add_mul]; omega)
+    omega
+  have h2 : ¬ c * s ≥ I → c + 1 ≤ (I + s - 1) / s := fun h =>
+    (Nat.le_div_iff_mul_le hs).mpr (by rw [Nat.add_mul]; omega)
+  generalize (I + s - 1) / s = q at *
   generalize c * s = cs at *
   simp only [Nat.min_def, Nat.max_def]
   by_cases h : cs ≥ I
@@ -63,7 +66,7 @@ theorem cdiv_natCast (a b : Nat) (hb : 0 < b) : cdiv (a : Int) (b : Int) = (((a 
 (`stride, kernel, dilation ≥ 1`), whenever the executor accepts the configuration, the value of the
 inferred size expression is exactly the executed size, in floor and in ceil mode. -/
 theorem c10_pool_output_size_agrees (inp k s d ps pe : Nat) (ceil : Bool) (n : Nat)
-    (hs : 1 ≤ s) (hk : 1 ≤ k) (hd : 1 ≤ d) (hin : 1 ≤ inp + ps)
+    (hs : 1 ≤ s) (hk : 1 ≤ k) (hd : 1 ≤ d)
     (he : poolExecSize inp k s d ps pe ceil = some n) :
     poolInferSize inp k s d ps pe ceil = n := by
   unfold poolExecSize at he
@@ -91,24 +94,25 @@ theorem c10_pool_output_size_agrees (inp k s d ps pe : Nat) (ceil : Bool) (n : N
     | true =>
       simp only [Bool.not_true, Bool.false_eq_true, if_false, if_true, Bool.true_and, decide_eq_true_eq,
         Nat.add_sub_cancel] at he ⊢
-      have hI : ((inp : Int) + ps - 1) = ((inp + ps - 1 : Nat) : Int) := by omega
-      rw [cdiv_natCast _ s (by omega), hI, tdiv_natCast]
-      have key := pool_clamp ((inp + ps + pe - d * (k - 1) - 1 + s - 1) / s) (inp + ps) s (by omega) hin
+      have hI : ((inp : Int) + ps) = ((inp + ps : Nat) : Int) := by omega
+      rw [cdiv_natCast _ s (by omega), hI, cdiv_natCast _ s (by omega)]
+      have key := pool_clamp ((inp + ps + pe - d * (k - 1) - 1 + s - 1) / s) (inp + ps) s (by omega)
       have cast : (Min.min ((((inp + ps + pe - d * (k - 1) - 1 + s - 1) / s : Nat) : Int) + 1)
-          (Max.max (((inp + ps + pe - d * (k - 1) - 1 + s - 1) / s : Nat) : Int) ((((inp + ps - 1) / s : Nat) : Int) + 1)))
+          (Max.max (((inp + ps + pe - d * (k - 1) - 1 + s - 1) / s : Nat) : Int) (((inp + ps + s - 1) / s : Nat) : Int)))
           = ((Nat.min ((inp + ps + pe - d * (k - 1) - 1 + s - 1) / s + 1)
-              (Nat.max ((inp + ps + pe - d * (k - 1) - 1 + s - 1) / s) ((inp + ps - 1) / s + 1)) : Nat) : Int) := by
+              (Nat.max ((inp + ps + pe - d * (k - 1) - 1 + s - 1) / s) ((inp + ps + s - 1) / s)) : Nat) : Int) := by
         simp only [Nat.min_def, Nat.max_def]; (repeat' split) <;> omega
       rw [cast, key]
       by_cases hc : (inp + ps + pe - d * (k - 1) - 1 + s - 1) / s * s ≥ inp + ps
       · simp only [hc, if_true, Option.some.injEq] at he ⊢; omega
       · simp only [hc, if_false, Option.some.injEq] at he ⊢; omega
 
-/-- The hypothesis `1 ≤ in + pad_start` is needed: for an EMPTY input axis without start padding the
-truncating `(0 - 1) / stride` is 0 (not −1) and the rule infers 1 where the executor produces 0
-(`in = 0, k = 1, s = 2, pads = (0, 1), ceil_mode`). The harness sweep starts at `in = 1`. -/
+/-- Finding `C10-pool-ceil-empty-input` (fixed): with the limit written `(in + pad_start - 1) / stride + 1`
+an EMPTY input axis without start padding gave 1 where the executor produces 0, because `/`
+truncates `(0 - 1) / 2` to 0 (`in = 0, k = 1, s = 2, pads = (0, 1), ceil_mode`); `div_ceil` is right. -/
 theorem c10_pool_empty_input_false :
-    poolInferSize 0 1 2 1 0 1 true = 1 ∧ poolExecSize 0 1 2 1 0 1 true = some 0 := by decide
+    poolInferSizeTrunc 0 1 2 1 0 1 = 1 ∧ poolExecSize 0 1 2 1 0 1 true = some 0 ∧
+    poolInferSize 0 1 2 1 0 1 true = 0 := by decide
 
 /-- Before fix 1c9e5a4 the clamp could drop more than one position: `in = 4, k = 1, s = 1,
 pads = (0, 2), ceil_mode` is inferred as 4 but executes to 5. -/
@@ -121,12 +125,13 @@ theorem c10_pool_seeded_rule_false :
     poolInferSizeSeeded 10 3 2 1 1 1 = 5 ∧ poolExecSize 10 3 2 1 1 1 true = some 6 ∧
     poolInferSize 10 3 2 1 1 1 true = 6 := by decide
 
-/-- Symbolic input size: the inferred expression evaluates to `poolInferSize` of the instantiated
-size (so `c10_pool_output_size_agrees` transfers to symbolic dims). -/
-theorem c10_pool_sym_eval (σ : Env) (inp : Sym) (v k s d ps pe : Int) (ceil : Bool) (hs : s ≠ 0)
-    (hv : inp.eval σ = some v) :
-    (poolInferSym inp k s d ps pe ceil).eval σ = some (poolInferSize v k s d ps pe ceil) := by
-  unfold poolInferSym poolInferSize
-  cases ceil <;> simp [Sym.eval, hv, hs]
+/-- Symbolic input size and symbolic kernel size (Conv takes the kernel from the weights' shape):
+the inferred expression evaluates to `poolInferSize` of the instantiated sizes, so
+`c10_pool_output_size_agrees` transfers to symbolic dims. -/
+theorem c10_pool_sym_eval (σ : Env) (inp k : Sym) (v kv s d ps pe : Int) (ceil : Bool) (hs : s ≠ 0)
+    (hv : inp.eval σ = some v) (hk : k.eval σ = some kv) :
+    (poolInferSym inp k s d ps pe ceil).eval σ = some (poolInferSize v kv s d ps pe ceil) := by
+  unfold poolInferSym convOutSym poolInferSize
+  cases ceil <;> simp [Sym.eval, hv, hk, hs]
 
 end RtenVerif.ShapeInfer
